@@ -279,7 +279,7 @@ func (r *Report) Finish() int {
 	dir := filepath.Join(VerifDir, "replay", r.Prop)
 	os.MkdirAll(dir, 0o755)
 	max := len(r.viol)
-	if max > 20 {
+	if max > 20 && os.Getenv("VERIF_ALLVIOL") == "" {
 		max = 20
 	}
 	for i := 0; i < max; i++ {
@@ -392,6 +392,7 @@ type ChildResult struct {
 	Args     []string
 	ExitCode int
 	TimedOut bool
+	Skipped  bool
 	Output   string // combined stdout+stderr (file-backed)
 	OutFile  string
 	Wall     time.Duration
@@ -399,18 +400,31 @@ type ChildResult struct {
 
 // RunChildren runs jobs (argument lists for bin) on up to par processes. Each
 // child's output goes to a file under work; a child exceeding timeout gets
-// SIGQUIT (so the goroutine dump lands in the file), then SIGKILL.
-func RunChildren(bin string, work string, jobs [][]string, env []string, par int, timeout time.Duration) []ChildResult {
+// SIGQUIT (so the goroutine dump lands in the file), then SIGKILL. onDone, if
+// non-nil, is called (serialised) as each child finishes; when stop returns
+// true no further children are started (their results have ExitCode -2).
+func RunChildren(bin string, work string, jobs [][]string, env []string, par int, timeout time.Duration, stop func() bool, onDone func(i int, r ChildResult)) []ChildResult {
 	res := make([]ChildResult, len(jobs))
 	sem := make(chan struct{}, par)
 	var wg sync.WaitGroup
+	var mu sync.Mutex
 	for i := range jobs {
-		wg.Add(1)
 		sem <- struct{}{}
+		if stop != nil && stop() {
+			<-sem
+			res[i] = ChildResult{Index: i, Args: jobs[i], ExitCode: -2, Skipped: true}
+			continue
+		}
+		wg.Add(1)
 		go func(i int) {
 			defer wg.Done()
 			defer func() { <-sem }()
 			res[i] = runChild(bin, work, i, jobs[i], env, timeout)
+			if onDone != nil {
+				mu.Lock()
+				onDone(i, res[i])
+				mu.Unlock()
+			}
 		}(i)
 	}
 	wg.Wait()
